@@ -162,6 +162,24 @@ def run(repo: Repo, ctx) -> None:
         else:
             tail = node.orelse
             node = None
+    if not pairs:
+        # table form: a dict display keyed by the ir members that the
+        # function looks its argument up in
+        from ..shapes import reach
+        for nd in reach(repo, mp):
+            for d in ast.walk(nd):
+                if isinstance(d, ast.Dict) and d.keys and all(
+                        k_ is not None and '.Cardinality.' in norm(k_)
+                        for k_ in d.keys):
+                    for k_, v_ in zip(d.keys, d.values):
+                        pairs[norm(k_).split('.')[-1]] = \
+                            norm(v_).split('.')[-1]
+        if pairs:
+            tail = [x for x in ast.walk(mp.node) if isinstance(x, ast.Raise)]
+    if not pairs:
+        raise AnalysisError('C06.R2: cardinality_from_ir_value maps its '
+                            'argument neither by an is-chain nor through a '
+                            'dict display: cannot read the mapping')
     for k in members:
         ctx.ob('C06.R2', f'cardinality_from_ir_value:{k}',
                pairs.get(k) == k,
